@@ -127,7 +127,7 @@ func VerifStoreRoundTrip() {
 	// p1 is symbolic (the value space is covered by the codec harnesses; here
 	// the address is short, over the IPv6 or the host-name alphabet), p2 is a
 	// fixed second peer with a symbolic flag.
-	p1 := verifSymPeerN("p", verif.Bool("p_ipv6_alphabet"), 1, verif.Bound("store_ip_min", 1, 0), verif.Bound("store_ip_max", 2, 4))
+	p1 := verifSymPeerN("p", verif.Bool("p_ipv6_alphabet"), 1, verif.Bound("store_ip_min", 1, 0), verif.Bound("store_ip_max", 2, 3))
 	p2 := core.NewPeerInfo(p1.PeerID, "10.0.0.2", 7001, false, verif.Bool("q_complete"))
 	verif.Assume(verif.Or(p1.IP != p2.IP, p1.Port != p2.Port))
 
